@@ -136,6 +136,22 @@ func Gen(r *rand.Rand, cfg GenConfig) *Spec {
 		}
 		spec.Convs = append(spec.Convs, c)
 	}
+	// UDP twins: a second flow between the same hosts whose ports hash into the
+	// same reassembly bucket (p^1, q^1), short-lived, next to a flow that stays
+	// active for longer than the inactivity timeout
+	if cfg.UDP && cfg.LongGaps && r.IntN(3) == 0 {
+		cp := uint16(21000 + 2*r.IntN(4000))
+		sp := uint16(6000 + 2*r.IntN(100))
+		host := fmt.Sprintf("10.0.2.%d", 10+r.IntN(5))
+		long := ConvSpec{Proto: "udp", Seed: r.Uint64(), Client: fmt.Sprintf("%s:%d", host, cp), Server: fmt.Sprintf("10.1.0.9:%d", sp), StartUS: r.Int64N(2_000_000), StepUS: 100}
+		for j := 0; j < 4+r.IntN(3); j++ {
+			long.Msgs = append(long.Msgs, MsgSpec{Dir: j % 2, Len: 5 + r.IntN(40), GapUS: int64(100_000_000 + r.IntN(100_000_000))})
+		}
+		long.Msgs[0].GapUS = 0
+		twin := ConvSpec{Proto: "udp", Seed: r.Uint64(), Client: fmt.Sprintf("%s:%d", host, cp^1), Server: fmt.Sprintf("10.1.0.9:%d", sp^1), StartUS: long.StartUS + int64(1_000_000+r.IntN(20_000_000)), StepUS: 100}
+		twin.Msgs = []MsgSpec{{Dir: 0, Len: 9}, {Dir: 1, Len: 7, GapUS: 1000}}
+		spec.Convs = append(spec.Convs, long, twin)
+	}
 	// unique start times: searches sorted by first packet time stay total orders
 	used := map[int64]bool{}
 	for i := range spec.Convs {
